@@ -25,6 +25,18 @@ use std::collections::BTreeSet;
 
 /// Returns problems found: (key suffix, description).
 pub fn tiling_problems(text: &str) -> Vec<(String, String)> {
+    tiling_problems_units(text).0
+}
+
+/// Also returns which column units (bytes, chars, UTF-16) fit every token of the document, and the
+/// first token that contradicts each unit.
+pub fn tiling_problems_units(text: &str) -> (Vec<(String, String)>, [bool; 3], [String; 3]) {
+    let mut first_bad: [String; 3] = [String::new(), String::new(), String::new()];
+    let r = tiling_inner(text, &mut first_bad);
+    (r.0, r.1, first_bad)
+}
+
+fn tiling_inner(text: &str, first_bad: &mut [String; 3]) -> (Vec<(String, String)>, [bool; 3]) {
     let mut out = vec![];
     let (tokens, _diags) = front::tokenize(text, "doc.st");
     // The lexer sees the preprocessed text; the preprocessor promises identical positions.
@@ -40,15 +52,15 @@ pub fn tiling_problems(text: &str) -> Vec<(String, String)> {
         let (s, e) = (t.span.start, t.span.end);
         if s > e || e > text.len() {
             out.push(("span-out-of-bounds".into(), format!("token {} {:?} has span {}..{} in a text of {} bytes", i, t.token_type, s, e, text.len())));
-            return out;
+            return (out, units_ok);
         }
         if !text.is_char_boundary(s) || !text.is_char_boundary(e) {
             out.push(("span-not-on-char-boundary".into(), format!("token {} {:?} span {}..{}", i, t.token_type, s, e)));
-            return out;
+            return (out, units_ok);
         }
         if s < pos {
             out.push((format!("spans-overlap/{:?}", t.token_type), format!("token {} {:?} starts at {} before the previous token ended at {}", i, t.token_type, s, pos)));
-            return out;
+            return (out, units_ok);
         }
         if s > pos {
             // a gap is legal only where the lexer reported an error (unmatched text) — checked by the caller via diagnostics
@@ -67,7 +79,7 @@ pub fn tiling_problems(text: &str) -> Vec<(String, String)> {
         let seg = &before[last_nl..];
         if t.line != line {
             out.push((format!("wrong-line/{:?}", t.token_type), format!("token {} {:?} at offset {} is on line {} but reports line {}", i, t.token_type, s, line, t.line)));
-            return out;
+            return (out, units_ok);
         }
         let cols = [seg.len(), seg.chars().count(), seg.encode_utf16().count()];
         let in_blanked = blanked_region.map(|(a, b)| last_nl >= a && last_nl <= b && s <= b + 1).unwrap_or(false);
@@ -76,20 +88,21 @@ pub fn tiling_problems(text: &str) -> Vec<(String, String)> {
             continue;
         }
         for u in 0..3 {
-            if cols[u] != t.col {
+            if cols[u] != t.col && units_ok[u] {
                 units_ok[u] = false;
+                first_bad[u] = format!("token {} {:?} at offset {} (line {}) reports column {}; bytes/chars/utf16 columns are {:?}", i, t.token_type, s, line, t.col, cols);
             }
         }
         if !units_ok.iter().any(|x| *x) {
             out.push((format!("wrong-column/{:?}", t.token_type), format!("token {} {:?} at offset {} (line {}) reports column {}; bytes/chars/utf16 columns are {:?}", i, t.token_type, s, line, t.col, cols)));
-            return out;
+            return (out, units_ok);
         }
         pos = e;
     }
     if pos != text.len() {
         out.push(("tail-not-covered".into(), format!("tokens end at {} but the text has {} bytes", pos, text.len())));
     }
-    out
+    (out, units_ok)
 }
 
 fn oscat_docs() -> Vec<(String, String)> {
@@ -253,10 +266,10 @@ pub fn run(ctx: &mut Ctx) {
         }
     }
     texts.extend(oscat_docs());
-    let tiling: Vec<Vec<(String, String)>> = texts
+    let tiling_units: Vec<(Vec<(String, String)>, [bool; 3], [String; 3])> = texts
         .par_iter()
         .map(|(_, t)| {
-            let mut p = tiling_problems(t);
+            let (mut p, units, bad) = tiling_problems_units(t);
             // gaps are legal exactly where the lexer reports unmatched text
             let (_, diags) = front::tokenize(t, "doc.st");
             if !diags.is_empty() {
@@ -268,9 +281,28 @@ pub fn run(ctx: &mut Ctx) {
                     }
                 }
             }
-            p
+            (p, units, bad)
         })
         .collect();
+    // one column unit must fit every token of every document of the run
+    let mut fit = [0usize; 3];
+    for (_, u, _) in &tiling_units {
+        for k in 0..3 {
+            if u[k] {
+                fit[k] += 1;
+            }
+        }
+    }
+    let best = (0..3).max_by_key(|k| (fit[*k], *k)).unwrap();
+    ctx.extra.insert("column_unit_that_fits".into(), json!(["bytes", "chars", "utf16"][best]));
+    let mut tiling: Vec<Vec<(String, String)>> = vec![];
+    for (p, u, bad) in tiling_units {
+        let mut p = p;
+        if !u[best] && !p.iter().any(|x| x.0.starts_with("wrong-column")) {
+            p.push(("column-not-in-the-unit-used-elsewhere".into(), format!("columns elsewhere are {}; here: {}", ["bytes", "chars", "utf16"][best], bad[best])));
+        }
+        tiling.push(p);
+    }
     for ((class, text), probs) in texts.iter().zip(tiling.iter()) {
         ctx.evaluations += 1;
         ctx.transitions += 1;
